@@ -55,6 +55,14 @@ LCommitStore(g) ==
        /\ res' = OkDesc(o.dd, None)
        /\ pend' = [pend EXCEPT ![g] = [st |-> "done", o |-> o, res |-> res']]
   /\ l' = l /\ UNCHANGED <<imm, mans, tags, touched, tvars, cwvars>>
+\* Through an HTTP hop PushBlob is two requests: the POST opens a session (and thereby creates the
+\* repository) before the PUT stores the blob.  An observer may therefore see the still-empty repository
+\* before the push takes effect: the property's empty-repository looseness, ahead of the linearization point.
+LTouch(g) ==
+  /\ hops > 0 /\ pend[g].st = "called" /\ pend[g].o.op = "PushBlob"
+  /\ pend[g].o.r \notin touched
+  /\ touched' = touched \cup {pend[g].o.r}
+  /\ l' = l /\ UNCHANGED <<imm, blobs, mans, tags, ups, res, tvars, cwvars, pend>>
 LRet ==
   /\ More /\ Ev.e = "ret"
   /\ \/ /\ Ev.op = "skip" /\ pend[Ev.g].st = "called"     \* the driver had no handle to call
@@ -62,7 +70,7 @@ LRet ==
   /\ pend' = [pend EXCEPT ![Ev.g] = NoCall]
   /\ l' = l + 1 /\ UNCHANGED <<vars, tvars, cwvars>>
 
-LNext == LReset \/ LInv \/ LRet \/ \E g \in Gs : LLin(g) \/ LCommitCheck(g) \/ LCommitStore(g)
+LNext == LReset \/ LInv \/ LRet \/ \E g \in Gs : LLin(g) \/ LCommitCheck(g) \/ LCommitStore(g) \/ LTouch(g)
 LSpec == LInit /\ [][LNext]_lvars
 
 \* high-water mark of consumed lines, kept in a TLC register
